@@ -65,7 +65,7 @@ class Observed:
     pass
 
 
-def observe_fit(cfg, X, y, script_seed, fast_rng=None):
+def observe_fit(cfg, X, y, script_seed, fast_rng=None, est=None):
     """one real fit with the two seams in place.  Returns the Vector calls and the optimiser calls."""
     import scipy.optimize as so
     rec = []
@@ -123,8 +123,12 @@ def observe_fit(cfg, X, y, script_seed, fast_rng=None):
                         path(clip_ref(X, cfg["norm"]), y, epsilon=eps_a, data_norm=norm_a, Cs=Cs, fit_intercept=ic,
                              max_iter=mi_a, tol=tol_a, check_input=bool(cfg.get("check_input", False)))
                     else:
-                        clf = dp.models.LogisticRegression(epsilon=eps_a, data_norm=norm_a, C=typed(cfg["C"], tp.get("C")),
-                                                           fit_intercept=ic, max_iter=mi_a, tol=tol_a)
+                        if est is not None:        # a refit of an existing estimator (life-cycle sequences)
+                            clf = est
+                        else:
+                            clf = dp.models.LogisticRegression(epsilon=eps_a, data_norm=norm_a, C=typed(cfg["C"], tp.get("C")),
+                                                               fit_intercept=ic, max_iter=mi_a, tol=tol_a,
+                                                               warm_start=bool(cfg.get("warm_start", False)))
                         clf.fit(as_passed(cfg, X), y)
     finally:
         so.fmin_l_bfgs_b = prev
@@ -707,6 +711,7 @@ def check(ctx):
     # calibration alone over the whole parameter box (model vs reference rule vs implementation's gammavariate scale)
     calib_sweep(ctx)
     vector_live(ctx)
+    lifecycle(ctx)
     # cross-instance state (class-level memos, module caches): Vector among other Vectors vs Vector alone
     c03.run_cross_instance(ctx, kinds=["vec"], prop="C17")
     rs = ctx.fork("stats")
@@ -840,11 +845,100 @@ def vector_live(ctx):
             ctx.trace_ok()
 
 
+# ------------------------------------------------------------------------------------------------ life cycle
+
+class _Collect:
+    """stands in for ctx inside direct(): collects what it would have reported"""
+
+    def __init__(self):
+        self.v = []
+        self.boundary_skipped = 0
+
+    def violation(self, sig, what, data):
+        self.v.append((sig, what))
+
+    def count(self, *a, **k):
+        pass
+
+
+def lifecycle_case(seq):
+    """one estimator through several fits (warm_start on/off, changing number of classes / n, set_params between fits,
+    clone + refit): every fit is held to the rule for its CURRENT data and parameters.  Returns a failure or None."""
+    from sklearn.base import clone
+    est = None
+    history = []
+    for i, st in enumerate(seq["steps"]):
+        cfg = dict(st["cfg"], warm_start=seq["warm_start"])
+        X, y = make_data(cfg, st["dseed"])
+        if est is not None and st.get("clone"):
+            est = clone(est)
+        if est is not None:
+            est.set_params(**{k: v for k, v in (("epsilon", cfg["eps"]), ("C", cfg["C"]), ("data_norm", cfg["norm"]),
+                                                ("max_iter", cfg["max_iter"]))})
+        try:
+            calls, opts, scripts, est = observe_fit(cfg, X, y, st["dseed"], est=est)
+        except ValueError as e:
+            # a refit that sklearn / the estimator refuses releases nothing
+            history.append(f"fit #{i} ({cfg['classes']} classes) raised {type(e).__name__}")
+            est = None
+            continue
+        sub = _Collect()
+        direct(sub, cfg, st["dseed"], X, y, calls, opts, scripts)
+        if sub.v:
+            sig, what = sub.v[0]
+            return sig, (f"fit #{i} of one LogisticRegression(warm_start={seq['warm_start']}) "
+                         f"[{'; '.join(history) or 'first fit'}{'; cloned' if st.get('clone') else ''}]: {what}")
+        history.append(f"fit #{i}: {cfg['classes']} classes, n={cfg['n']}, eps={cfg['eps']!r}, C={cfg['C']!r}")
+    return None
+
+
+def gen_lifecycle(r):
+    warm = r.chance(0.6)
+    d, ic = r.randint(1, 5), r.chance(0.5)
+    steps = []
+    base = {"eps": r.choice([3.0, 1.2, r.loguniform(0.1, 10.0)]), "C": r.choice([1.0, r.loguniform(0.1, 10.0)]),
+            "norm": r.choice([1.0, r.loguniform(0.3, 3.0)])}
+    for i in range(r.randint(2, 3)):
+        if i > 0 and r.chance(0.4):          # set_params between fits
+            f = r.choice(["eps", "C", "norm"])
+            base = dict(base)
+            base[f] = {"eps": r.loguniform(0.1, 10.0), "C": r.loguniform(0.1, 10.0), "norm": r.loguniform(0.3, 3.0)}[f]
+        cfg = dict(base, d=d if warm or r.chance(0.6) else r.randint(1, 5), n=r.randint(12, 80), classes=r.randint(2, 4),
+                   intercept=ic, max_iter=r.choice([1, 3]), rs=r.chance(0.4))
+        steps.append({"cfg": cfg, "dseed": r.next() % (1 << 40), "clone": i > 0 and r.chance(0.25)})
+    return {"warm_start": warm, "steps": steps}
+
+
+def _lc(warm, specs):
+    return {"warm_start": warm, "steps": [{"cfg": {"eps": e, "C": 1.0, "norm": 1.0, "d": 3, "n": 40, "classes": k, "intercept": True,
+                                                   "max_iter": 2}, "dseed": 5000 + j, "clone": False}
+                                          for j, (k, e) in enumerate(specs)]}
+
+
+FIXED_LIFECYCLES = [_lc(True, [(3, 3.0), (2, 3.0)]), _lc(True, [(4, 1.2), (3, 1.2)]), _lc(True, [(2, 1.0), (3, 1.0)]),
+                    _lc(True, [(2, 1.0), (2, 2.0)]), _lc(False, [(4, 1.0), (2, 1.0), (3, 1.0)])]
+
+
+def lifecycle(ctx):
+    r = ctx.fork("lifecycle")
+    seqs = list(FIXED_LIFECYCLES) + [gen_lifecycle(r) for _ in range(ctx.budget(40, 400))]
+    for seq in seqs:
+        ctx.case(("lifecycle", seq["warm_start"], tuple(s_["cfg"]["classes"] for s_ in seq["steps"]),
+                  tuple(bool(s_.get("clone")) for s_ in seq["steps"])))
+        bad = lifecycle_case(seq)
+        if bad:
+            ctx.violation("C17:" + bad[0], bad[1], {"check": "lifecycle", "seq": seq})
+        else:
+            ctx.trace_ok()
+
+
 def replay(ctx, data):
     d = data["data"]
     chk = d.get("check")
     if chk == "cross-instance":
         return c03.cross_instance_case(d["cc"]) is not None
+    if chk == "lifecycle":
+        return lifecycle_case(d["seq"]) is not None
     if chk == "vector-live":
         return vector_live_case(d["live"]) is not None
     if chk == "calib":
@@ -862,6 +956,7 @@ def check_stats_only(ctx):
     ctx.fork("cfgs")
     ctx.fork("calib")
     ctx.fork("vector-live")
+    ctx.fork("lifecycle")
     ctx.fork("cross-instance")
     rs = ctx.fork("stats")
     stat_vector(ctx, rs, min(1000000, ctx.budget(20000, 1000000)))
